@@ -250,8 +250,33 @@ fn enumerate(alphabet: &[u8], prefix: &[u8], len: usize, shard: usize, jobs: usi
     }
 }
 
+fn random_char(rng: &mut Rng) -> char {
+    // valid scalar values whose encodings cover every continuation byte 0x80..=0xBF
+    let cp = match rng.below(4) {
+        0 => 0x80 + rng.below(0x780) as u32,
+        1 => 0xA0 + rng.below(0x60) as u32,
+        2 => 0x800 + rng.below(0xD000) as u32,
+        _ => 0x10000 + rng.below(0x20000) as u32,
+    };
+    char::from_u32(cp).unwrap_or('\u{e9}')
+}
+
 fn random_input(rng: &mut Rng, corpus: &[Vec<u8>]) -> Vec<u8> {
-    match rng.below(6) {
+    match rng.below(7) {
+        6 => {
+            // valid UTF-8: markup alphabet interleaved with random non-ASCII characters (tag names,
+            // attribute names and values, text, comments all get multi-byte characters)
+            let n = rng.range(2, 40);
+            let mut s = String::new();
+            for _ in 0..n {
+                if rng.chance(1, 3) {
+                    s.push(random_char(rng));
+                } else {
+                    s.push(*rng.pick(ALPHABET) as char);
+                }
+            }
+            s.into_bytes()
+        }
         0 => {
             // arbitrary bytes
             let n = rng.range(0, 64);
@@ -324,9 +349,9 @@ fn random_input(rng: &mut Rng, corpus: &[Vec<u8>]) -> Vec<u8> {
 
 pub fn run(ctx: &Ctx, _args: &Args) -> i32 {
     let started = Instant::now();
-    let max_len = ctx.tier.pick(6usize, 7usize);
-    let suffix_len = ctx.tier.pick(4usize, 5usize);
-    let random_cases: u64 = ctx.tier.pick(1_000_000, 10_000_000);
+    let max_len = ctx.tier.pick(7usize, 8usize);
+    let suffix_len = ctx.tier.pick(5usize, 6usize);
+    let random_cases: u64 = ctx.tier.pick(4_000_000, 60_000_000);
     let corpus = corpus::html_documents();
     let jobs = ctx.jobs;
 
@@ -338,7 +363,7 @@ pub fn run(ctx: &Ctx, _args: &Args) -> i32 {
             enumerate(ALPHABET, b"", len, shard, jobs, "exhaustive-15", report);
         }
         if ctx.tier.pick(false, true) {
-            enumerate(SUB_ALPHABET, b"", 8, shard, jobs, "exhaustive-12", report);
+            enumerate(SUB_ALPHABET, b"", 9, shard, jobs, "exhaustive-12", report);
         }
         for prefix in PREFIXES {
             for len in 1..=suffix_len {
@@ -370,8 +395,8 @@ pub fn run(ctx: &Ctx, _args: &Args) -> i32 {
     );
     if ctx.tier.pick(false, true) {
         report.exhaustive.insert(
-            "all strings of length 8 over the 12-symbol sub-alphabet".to_string(),
-            json!({"complete": true, "size": (SUB_ALPHABET.len() as u64).pow(8), "alphabet": String::from_utf8_lossy(SUB_ALPHABET)}),
+            "all strings of length 9 over the 12-symbol sub-alphabet".to_string(),
+            json!({"complete": true, "size": (SUB_ALPHABET.len() as u64).pow(9), "alphabet": String::from_utf8_lossy(SUB_ALPHABET)}),
         );
     }
     report.exhaustive.insert(
